@@ -3,7 +3,7 @@
 use std::io::{self, BufRead, Read, Seek, SeekFrom, Write};
 
 pub const HANG_LIMIT: u64 = 200_000;
-pub const HANG_MSG: &str = "FV_HANG: reader polled too often after end of data";
+pub const HANG_MSG: &str = "FV_HANG: reader polled too often after end of data (or asked for the same unconsumed buffer over and over)";
 
 #[derive(Debug, Clone, PartialEq, Eq)]
 pub enum Op {
@@ -296,13 +296,15 @@ pub struct SplitBuf {
     pub eof_polls: u64,
     /// fail the n-th fill_buf with Interrupted
     pub interrupt_at: Option<u64>,
+    /// consecutive fill_buf calls that were not followed by a consume of at least one byte
+    pub idle_fills: u64,
 }
 
 impl SplitBuf {
     pub fn new(data: Vec<u8>, mut splits: Vec<usize>) -> Self {
         splits.sort();
         splits.dedup();
-        SplitBuf { data, pos: 0, splits, fills: 0, eof_polls: 0, interrupt_at: None }
+        SplitBuf { data, pos: 0, splits, fills: 0, eof_polls: 0, interrupt_at: None, idle_fills: 0 }
     }
     fn end(&self) -> usize {
         self.splits.iter().copied().find(|s| *s > self.pos).unwrap_or(self.data.len()).min(self.data.len())
@@ -333,10 +335,19 @@ impl BufRead for SplitBuf {
             }
             return Ok(&[]);
         }
+        // a caller that keeps asking for the same non-empty buffer without consuming any of it
+        // will never get anything else: that is a hang, not slowness
+        self.idle_fills += 1;
+        if self.idle_fills > HANG_LIMIT {
+            panic!("{}", HANG_MSG);
+        }
         let e = self.end();
         Ok(&self.data[self.pos..e])
     }
     fn consume(&mut self, amt: usize) {
+        if amt > 0 {
+            self.idle_fills = 0;
+        }
         self.pos = (self.pos + amt).min(self.data.len());
     }
 }
